@@ -165,6 +165,8 @@ class Run(object):
             dmax = max(s["dist"](x) for s in P["sets"])
             feas = "ok" if dmax <= tol else "viol"
         self.calls.append(dict(i=i, x=x, r=None if raised else r.copy(), f=f, raised=raised))
+        if args:
+            self.argsf_seen = args
         self.emit("Call", i=i, xid=self.xid(x), pos=pos_classes(x, P["lo"], P["hi"]), f=f, cls=("raise" if raised else rclass(r)),
                   raised=raised, feas=feas, xfin=bool(np.all(np.isfinite(x))))
         if raised:
